@@ -230,8 +230,9 @@ Theorem new_add_not_atomic_refuted :
 Proof. exact new_add_not_atomic_refuted_lemma. Qed.
 Print Assumptions new_add_not_atomic_refuted.
 
+(* the write-back before the repair DI92 (variant NWriteBackLate) *)
 Theorem new_solve_writeback_not_atomic_refuted :
-  exists ks ops k w os s, wrun NFixed (mkW (mkprms ks) []) ops (start (Some k)) = Ok ((w, os), s) /\
+  exists ks ops k w os s, wrun NWriteBackLate (mkW (mkprms ks) []) ops (start (Some k)) = Ok ((w, os), s) /\
     last os Done = Err ENOMEM /\
     map (fun p => match pgv p with Some _ => true | None => false end) (w_prm w) = [false; false; false; false; true; false].
 Proof. exact new_solve_writeback_not_atomic_refuted_lemma. Qed.
@@ -244,3 +245,18 @@ Theorem new_hold_early_leak_refuted :
     exists os' s', whistory NFixed ks ops (start (Some k)) = Ok ((os', map (fun _ => 0%nat) ks), s').
 Proof. exact new_hold_early_leak_refuted_lemma. Qed.
 Print Assumptions new_hold_early_leak_refuted.
+
+(* vnacal_new_solve (after the repair DI92: the frequency vectors of all unknowns are allocated before any solution is stored):
+   every outcome other than success - a refused call, any failing request incl. those of the write-back, a kernel that gives up -
+   leaves the vnacal_new_t and every parameter (holds, frequency vector, gamma vector, frequency count) exactly as they were *)
+Theorem new_solve_atomic : forall v ps body trl fails s v' ps' out s',
+  solve NFixed v ps body trl fails s = Ok ((v', ps', out), s') -> out <> Done -> v' = v /\ ps' = ps.
+Proof. exact new_solve_atomic_lemma. Qed.
+Print Assumptions new_solve_atomic.
+
+(* not vacuous: the history whose write-back failed half way before the repair now fails with every gamma vector absent as before *)
+Example new_solve_atomic_witness :
+  exists w os s, wrun NFixed (mkW (mkprms ks5) []) [WNew cfgA; WSetF 0; WAdd 0 (addA 4); WAdd 0 (addA 5); WSolve 0 0 false false] (start (Some 40%nat)) = Ok ((w, os), s) /\
+    last os Done = Err ENOMEM /\
+    map (fun p => match pgv p with Some _ => true | None => false end) (w_prm w) = [false; false; false; false; false; false].
+Proof. eexists; eexists; eexists. split; [vm_compute; reflexivity | split; vm_compute; reflexivity]. Qed.
